@@ -8,7 +8,14 @@
 // verif/ref/refwriter. After every single operation the oracle demands: no
 // panic; File.Bytes() parses; the parsed attributes and blocks equal the model
 // exactly and in order (recursively); the read accessors agree with the model;
-// items no edit ever targeted still have their original tokens and comments.
+// items no edit ever targeted still have their original tokens and comments;
+// every comment of the initial file that is not attached to a removed item is
+// still in its body, in the original order.
+//
+// The Tokens values the operations pass in are made once per history and
+// reused (two attributes may hold the same *Token objects), and expressions are
+// copied between attributes by their tokens; the model treats all attributes
+// as independent.
 package main
 
 import (
@@ -434,11 +441,12 @@ func main() {
 		Title:     "Any sequence of writer-API edits leaves a valid file that matches the edits",
 		Technique: "explicit-state exploration of all bounded operation histories on the real hclwrite objects, compared after every step with a map/list reference model",
 		Rule: fmt.Sprintf("all sequences of <= 3 operations over a core alphabet of %d edit operations (quick) / all sequences of <= 3 operations over the full alphabet of %d operations plus all sequences of 4 operations over the core alphabet (thorough) "+
-			"(SetAttributeValue/Raw/Traversal, RenameAttribute, RemoveAttribute, AppendNewBlock, AppendBlock of a new / pre-populated / previously removed block, RemoveBlock of block #i or of a foreign block, "+
-			"Block.SetType, Block.SetLabels, AppendNewline, AppendUnstructuredTokens; names a,b,c; values 1,\"s\",list; labels [],[l],[l,m]) "+
-			"on the root body, the bodies of root blocks #0 and #1 and the first body nested in #0, from each of %d initial files (empty, generated via the API, three parsed files with lead/line comments, blank lines, nested labelled block, one-line block, missing final newline). "+
-			"An operation is offered only where its target exists in the model. No state merging: every history is replayed from scratch on a fresh file. "+
-			"The complete oracle judges the final state of every history (the space is prefix-closed, so that is every reachable state); intermediate steps are checked for panics, documented results and accessor agreement. "+
+			"(SetAttributeValue/Raw/Traversal, SetAttributeRaw with the tokens of another attribute's expression (same body / root body), RenameAttribute, RemoveAttribute, AppendNewBlock, AppendBlock of a new / pre-populated / previously removed block, RemoveBlock of block #i or of a foreign block, "+
+			"Block.SetType, Block.SetLabels, AppendNewline, AppendUnstructuredTokens; names a,b,c; values 1,true,\"s\",list; raw tokens x.y, 1+2, 7, null, \"q\"; labels [],[l],[l,m]; every Tokens value is made once per history and passed again to every operation with the same raw id, so attributes share *Token objects) "+
+			"on the root body, the bodies of root blocks #0 and #1 and the first body nested in #0, from each of %d initial files (empty, generated via the API, parsed files with lead/line comments, blank lines, nested labelled block, one-line block, missing final newline, "+
+			"items with a #/'//' line comment directly followed by comment lines at three depths). "+
+			"An operation is offered only where its target (and source attribute) exists in the model. No state merging: every history is replayed from scratch on a fresh file. "+
+			"The complete oracle (parses; items = model; untouched items keep their text; per body, every comment of the initial file not attached to a removed item is still there, in order) judges the final state of every history (the space is prefix-closed, so that is every reachable state); intermediate steps are checked for panics, documented results and accessor agreement. "+
 			"Distinct = distinct (final model state, final serialised bytes).", len(alphabetQuick), len(alphabetThorough), len(initialFiles)),
 		Assumptions: []string{
 			"hclsyntax.ParseConfig/LexConfig are trusted to read the serialised output back (attribute names, expression ranges, block types/labels, token boundaries)",
